@@ -1466,11 +1466,15 @@ func toFilterMap(
 				// `{children: {_and: [{field: {...}}, ...]}}`.
 				_, ok = innerSourceValue.([]any)
 			}
-			if ok && mapping != nil && t.Index < len(mapping.ChildMappings) {
+			if ok && mapping != nil {
 				// If the innerSourceValue is also a map, then we should parse the nested clause
 				// using the child mapping, as this key must refer to a host property in a join
 				// and deeper keys must refer to properties on the child items.
-				innerMapping = mapping.ChildMappings[t.Index]
+				// A property without a child mapping (e.g. a JSON field) has no mapped fields:
+				// the deeper keys must never be resolved against the fields of the host.
+				if t.Index < len(mapping.ChildMappings) {
+					innerMapping = mapping.ChildMappings[t.Index]
+				}
 			} else {
 				innerMapping = mapping
 			}
